@@ -239,6 +239,10 @@ pub struct Run {
     pub start: Instant,
     /// Replay mode: run only item `.1` of enumeration `.0` (generated checks are skipped).
     pub only: Option<(String, u64)>,
+    /// Write every generated case to a per-worker breadcrumb file before judging it
+    /// (C09, C14): if the process is killed (abort, stack overflow), `check` replays
+    /// the breadcrumbs to find the input that kills it.
+    pub breadcrumbs: std::sync::atomic::AtomicBool,
 }
 
 impl Run {
@@ -337,11 +341,23 @@ impl Run {
                 }
             }
         };
+        let crumb = if self.breadcrumbs.load(std::sync::atomic::Ordering::Relaxed) {
+            let dir = format!("{}/.build/tmp/crumbs-{}", self.verif_dir, self.prop);
+            let _ = std::fs::create_dir_all(&dir);
+            Some(format!("{dir}/{}-{check}-{w}.json", std::process::id()))
+        } else {
+            None
+        };
         let res = runner.run(&strat, |v| {
             let mut e = ev.borrow_mut();
             // the first generated case of every worker goes into the evidence as it is
             if w < 2 && !e.frozen && !e.samples.iter().any(|s| s.get("generated_case").is_some()) {
                 e.samples.push(json!({"check": check, "generated_case": truncate_json(serde_json::to_value(&v).unwrap_or(Value::Null))}));
+            }
+            if let Some(path) = &crumb {
+                let body = json!({"property": self.prop, "check": check, "profile": self.profile, "tier": self.tier.name(), "seed": self.seed,
+                    "signature": "abort", "message": "the process died while judging this case", "case": serde_json::to_value(&v).unwrap_or(Value::Null)});
+                let _ = std::fs::write(path, body.to_string());
             }
             match judge(&v, &mut e) {
                 Ok(()) => Ok(()),
@@ -356,6 +372,9 @@ impl Run {
                 }
             }
         });
+        if let Some(path) = &crumb {
+            let _ = std::fs::remove_file(path);
+        }
         let mut ev = ev.into_inner();
         ev.frozen = false;
         match res {
